@@ -271,7 +271,7 @@ func (ex *Exec) oblige(fr *Frame, kind, label string, pos token.Pos, pc, goal *T
 	}
 	ex.obls = append(ex.obls, o)
 	// once checked, the goal may be assumed (post-conditions are independent of each other: not assumed)
-	if kind != "post" {
+	if kind != "post" && kind != "avp" {
 		ex.assume(pc, goal)
 	}
 }
